@@ -245,7 +245,7 @@ async fn run(l: &mut Loose<8>, ops: &[Op], pred_gt: &[bool]) -> Out {
         }
         if !rotated {
             let cnt = s.records_count_in_active_blob().await;
-            out.violation = Some(("no-rotation-after-overflow".into(), format!("active blob holds {:?} records (limit 5), the debounce interval has passed and 3 more records were written, but no new blob was created", cnt)));
+            out.violation = Some(("no-rotation-after-overflow".into(), format!("active blob holds {:?} records (limit: 5 records or 500 bytes), the debounce interval has passed and 3 more records were written, but no new blob was created", cnt)));
             let st = l.storage.take().unwrap();
             let _ = tokio::time::timeout(Duration::from_secs(5), st.close()).await;
             return out;
@@ -282,7 +282,13 @@ pub fn shard(ctx: &Ctx) -> Shard {
     while ctx.time_left() {
         let mut cfg = random_cfg(&mut rng, p.n_keys, p.n_meta, Some(true));
         cfg.keylen = 8;
-        cfg.max_records = Some(5);
+        // the limit that the overflow probe exceeds: 5 records, or 500 bytes of blob file
+        if n % 2 == 0 {
+            cfg.max_records = Some(5);
+        } else {
+            cfg.max_blob_size = Some(500);
+        }
+        sh.add(if cfg.max_records.is_some() { "probes_record_limit" } else { "probes_size_limit" }, 1);
         let ops = gen_history(&mut rng, &p);
         let pred_gt: Vec<bool> = ops.iter().map(|_| rng.chance(1, 3)).collect();
         let dir = new_dir("c13-");
@@ -308,11 +314,42 @@ pub fn shard(ctx: &Ctx) -> Shard {
             }
             continue;
         }
-        let r = block_on_catch(cfg.mt, run(&mut l, &ops, &pred_gt));
+        // a third of the histories: tiny dirty-byte limit and slow blob syncs (delay failpoint), so that
+        // background syncs are running while lifecycle requests ask for the exclusive storage lock
+        let slow_sync = n % 3 == 2;
+        if slow_sync {
+            cfg.max_dirty = Some(*rng.pick(&[0u64, 64, 1000]));
+        }
+        let sync_delay = rng.range(2, 9);
+        let dir2 = dir.clone();
+        let r = block_on_catch(cfg.mt, async {
+            pearl::verif::tap::arm(&dir2, false, false);
+            if slow_sync {
+                pearl::verif::tap::set_faults(&dir2, vec![pearl::verif::tap::Fault { kinds: vec![pearl::verif::tap::Kind::Sync], suffix: ".blob".into(), nth: 0, sticky: true, action: pearl::verif::tap::Action::Delay(sync_delay) }]);
+            }
+            let m = crate::drive::hang_monitored(&dir2, 15, 120, run(&mut l, &ops, &pred_gt)).await;
+            let _ = pearl::verif::tap::disarm(&dir2);
+            m
+        });
         rm_dir(&dir);
         n += 1;
         sh.evaluations += 1;
-        let replay = json!({"check": "c13", "cfg": cfg.to_json(), "history": history_json(&ops), "short": history_short(&ops), "pred_records_gt_2": pred_gt});
+        if slow_sync {
+            sh.add("histories_with_slow_background_syncs", 1);
+        }
+        let replay = json!({"check": "c13", "cfg": cfg.to_json(), "history": history_json(&ops), "short": history_short(&ops), "pred_records_gt_2": pred_gt, "slow_sync_ms": if slow_sync { sync_delay } else { 0 }});
+        let r = match r {
+            Ok(crate::drive::Monitored::Returned(out)) => Ok(out),
+            Ok(crate::drive::Monitored::HungQuiescent(q)) => {
+                sh.violation(&ctx.known, "C13", ctx.seed, "C13/storage-call-hangs", &format!("a storage call of the history (or of the overflow / close probe) stayed pending while no file operation started, finished or was in flight during {} consecutive samples (> 15 s): deadlock", q), replay);
+                continue;
+            }
+            Ok(crate::drive::Monitored::HungBusy) => {
+                sh.inconclusive.push("history still pending after 120 s while file operations kept happening".into());
+                continue;
+            }
+            Err(p) => Err(p),
+        };
         match r {
             Ok(out) => {
                 sh.add("probes", 1);
